@@ -566,6 +566,33 @@ func extractAll() {
 		}
 		addBool("sioClientGateAtomic", atomic, rel)
 	}
+	// ---- inbound limits are installed: polling POST body through http.MaxBytesReader, WebSocket server SetReadLimit in both
+	// branches (limit / -1 when disabled), WebSocket client SetReadLimit(-1)
+	{
+		has := func(rel, recv, fn, callee string) bool {
+			fd := findFunc(load(rel), recv, fn)
+			if fd == nil {
+				return false
+			}
+			n, _ := callsIn(fd, callee)
+			return n > 0
+		}
+		count := func(rel, recv, fn, callee string) int {
+			fd := findFunc(load(rel), recv, fn)
+			if fd == nil {
+				return 0
+			}
+			n, _ := callsIn(fd, callee)
+			return n
+		}
+		addBool("eioPollingBodyLimited", has("engine.io/transport/polling/server.go", "ServerTransport", "handleDataRequest", "MaxBytesReader") ||
+			has("engine.io/transport/polling/server.go", "ServerTransport", "handlePostRequest", "MaxBytesReader") ||
+			has("engine.io/transport/polling/server.go", "ServerTransport", "ServeHTTP", "MaxBytesReader"), "engine.io/transport/polling/server.go")
+		addBool("eioWsServerReadLimitSet", count("engine.io/transport/websocket/server.go", "ServerTransport", "Handshake", "SetReadLimit") >= 2,
+			"engine.io/transport/websocket/server.go")
+		addBool("eioWsClientReadLimitLifted", has("engine.io/transport/websocket/client.go", "ClientTransport", "Handshake", "SetReadLimit"),
+			"engine.io/transport/websocket/client.go")
+	}
 	// ---- Socket.IO packet types
 	{
 		p := "parser/packet.go"
